@@ -8,10 +8,13 @@ import (
 	"fmt"
 	"os"
 	"path/filepath"
+	"runtime"
+	"strings"
 
 	"github.com/ontio/ontology/account"
 	"github.com/ontio/ontology/common"
 	"github.com/ontio/ontology/core/types"
+	mt "github.com/ontio/ontology/p2pserver/message/types"
 	"verifharness/lib/chain"
 	"verifharness/lib/vf"
 )
@@ -26,6 +29,14 @@ type mutant struct {
 	signers func(ctx *mctx) []*account.Account
 	// idempotent: documented "height <= current returns nil" case
 	idempotent bool
+	// sameHeader: the mutant keeps the valid block's header bytes (hence its hash and signatures): also offered
+	// after the valid header became known through header sync
+	sameHeader bool
+	// forge: a "consistent forgery" (forge.go): every field the proposer controls downstream of the mutated one
+	// was rebuilt (block root through the ledger's own helper, signatures by the bookkeepers)
+	forge bool
+	// wire: byte surgery on the encoded block (wire-only shapes that no block object serialises to)
+	wire func(raw []byte, b *types.Block) []byte
 }
 
 type mctx struct {
@@ -82,25 +93,25 @@ func mutants(multi bool) []mutant {
 			b.Header.TransactionsRoot = flip(b.Header.TransactionsRoot, x.rng)
 			return true
 		}},
-		{name: "txlist-drop-last", reseal: false, apply: func(b *types.Block, x *mctx) bool {
+		{name: "txlist-drop-last", reseal: false, sameHeader: true, apply: func(b *types.Block, x *mctx) bool {
 			if len(b.Transactions) == 0 {
 				return false
 			}
 			b.Transactions = b.Transactions[:len(b.Transactions)-1]
 			return true
 		}},
-		{name: "txlist-append-extra", reseal: false, apply: func(b *types.Block, x *mctx) bool {
+		{name: "txlist-append-extra", reseal: false, sameHeader: true, apply: func(b *types.Block, x *mctx) bool {
 			b.Transactions = append(b.Transactions, x.extraTx)
 			return true
 		}},
-		{name: "txlist-duplicate-last", reseal: false, apply: func(b *types.Block, x *mctx) bool {
+		{name: "txlist-duplicate-last", reseal: false, sameHeader: true, apply: func(b *types.Block, x *mctx) bool {
 			if len(b.Transactions) == 0 {
 				return false
 			}
 			b.Transactions = append(b.Transactions, b.Transactions[len(b.Transactions)-1])
 			return true
 		}},
-		{name: "txlist-swap", reseal: false, apply: func(b *types.Block, x *mctx) bool {
+		{name: "txlist-swap", reseal: false, sameHeader: true, apply: func(b *types.Block, x *mctx) bool {
 			if len(b.Transactions) < 2 || b.Transactions[0].Hash() == b.Transactions[1].Hash() {
 				return false
 			}
@@ -139,6 +150,7 @@ func mutants(multi bool) []mutant {
 		}},
 		{name: "wrong-state-root-arg", wrongRoot: true},
 	}
+	ms = append(ms, forgeries()...)
 	if multi {
 		ms = append(ms,
 			mutant{name: "sigs-below-threshold", signers: func(x *mctx) []*account.Account {
@@ -168,6 +180,10 @@ func mutants(multi bool) []mutant {
 	return ms
 }
 
+// offerPaths: how a block reaches the ledger.  Every path starts from BYTES and goes through the decoder the node
+// uses for that path (types.BlockFromRawBytes for sync/consensus payloads, the p2p block message for block sync).
+var offerPaths = []string{"AddBlock", "Execute+Submit", "p2p-msg"}
+
 type view struct {
 	fp       chain.Fingerprint
 	nextHash common.Uint256
@@ -180,7 +196,7 @@ func observe(c *chain.Chain) view {
 
 func main() {
 	r := vf.NewRun("C39", "exploration",
-		"solo and 4/7-bookkeeper chains; at sampled heights a valid next block B is built and each single-field mutant (height, prev hash, timestamp, block root, tx root, tx list, signatures, state-root argument) is offered as bytes->decode->AddBlock and ->ExecuteBlock+SubmitBlock; a case = (chain kind, height, mutant, path); non-trivial = mutant applicable; distinct by that tuple")
+		"solo and 4/7-bookkeeper chains; at sampled heights a valid next block B is built and each single-field mutant (height, prev hash, timestamp, block root, tx root, tx list, signatures, state-root argument) and each consistent forgery (tx root / tx list mutated, block root and signatures rebuilt; empty list with non-zero root; duplicates) is offered as bytes->decode->AddBlock, ->ExecuteBlock+SubmitBlock and p2p block message->AddBlock, before and after header sync; a case = (chain kind, height, mutant, path); non-trivial = mutant applicable; distinct by that tuple. Concurrent stage: per height k>=2 blocks for that height (same block k times / different valid blocks / valid among mutants) offered from k goroutines released by a barrier; a case = (chain kind, height, shape, k)")
 	scratch := vf.Scratch("c39")
 	defer os.RemoveAll(scratch)
 	rng := vf.NewRNG(vf.Seed())
@@ -191,9 +207,49 @@ func main() {
 	for ki, nbk := range kinds {
 		runChain(r, rng.Sub(uint64(ki)), filepath.Join(scratch, fmt.Sprintf("chain%d", ki)), nbk, ki)
 	}
+	// concurrent stage (concurrent.go): k blocks for the same height released by a barrier
+	// (on a machine with few CPUs the goroutines get more OS threads than CPUs, so that the kernel interleaves them too)
+	procs := runtime.GOMAXPROCS(0)
+	if procs < 4 {
+		runtime.GOMAXPROCS(4)
+	}
+	concKinds := []int{1, 1, 4}
+	if vf.Thorough() {
+		concKinds = []int{1, 1, 1, 1, 1, 1, 4, 4, 7}
+	}
+	for i, nbk := range concKinds {
+		rounds := vf.N(300, 600)
+		if nbk > 1 {
+			rounds = vf.N(150, 400)
+		}
+		runConcurrent(r, rng.Sub(uint64(1000+i)), filepath.Join(scratch, fmt.Sprintf("conc%d", i)), nbk, 100+i, rounds)
+	}
+	runtime.GOMAXPROCS(procs)
+	probeUndecodedObject(r, filepath.Join(scratch, "probe"))
 	for _, m := range mutants(true) {
 		r.Require("mutant/"+m.name, 2)
+		if m.sameHeader {
+			r.Require("mutant_after_header_sync/"+m.name, 2)
+		}
 	}
+	for _, p := range offerPaths {
+		r.Require("forgery_offered/"+p, 20)
+		r.Require("offered_with_inconsistent_txroot/"+p, 20)
+	}
+	r.Require("offered_empty_txlist_nonzero_txroot", 20)
+	r.Require("inconsistent_txroot_rejected", 60)
+	r.Require("rejected_at_p2p_msg_decode", 5)
+	r.Require("rejected_by_p2p-msg", 20)
+	for _, s := range concShapes {
+		r.Require("concurrent_round/"+s, 15)
+	}
+	r.Require("concurrent_offers", 1500)
+	r.Require("concurrent_offers/AddBlock", 1200)
+	r.Require("concurrent_offers/Execute+Submit", 10)
+	r.Require("concurrent_offers/AddHeaders", 5)
+	r.Require("concurrent_round_equal_to_reference", 700)
+	r.Require("concurrent_chain_extended_after_round", 700)
+	r.Require("concurrent_final_honest_block", 3)
 	r.Require("rejected_at_decode", 5)
 	r.Require("mutant_after_header_sync/sig-removed", 2)
 	r.Require("mutant_after_header_sync/sig-garbled", 2)
@@ -201,6 +257,7 @@ func main() {
 	r.Require("rejected_by_Execute+Submit", 20)
 	r.Require("valid_block_accepted_after_mutants", 5)
 	r.Require("idempotent_old_height", 2)
+	r.Assume("concurrent stage: which of several valid blocks for one height wins, and what each of the concurrent calls returns, depends on the scheduler and is not judged; the verdict (one step, one valid winner in every query family, equality with a reference ledger fed the winners only) does not")
 	r.Assume("blocks reach the ledger as bytes (decoded with BlockFromRawBytes) as they do from the network; mutants that change a signed field are re-signed by the bookkeepers so that exactly one check can reject them")
 	os.RemoveAll(scratch)
 	r.Finish()
@@ -295,10 +352,10 @@ func tryMutants(r *vf.Run, rng *vf.RNG, c *chain.Chain, B *types.Block, root com
 	extra, _ := w.TB.TransferTx("ont", w.Accts[2], w.Accts[3].Address, 3, 0, 20000)
 	before := observe(c)
 	for mi, m := range mutants(multi) {
-		if headerSynced && !(len(m.name) > 3 && m.name[:3] == "sig") {
-			continue // after the header was synced only mutants with the SAME header hash are of interest: the signature mutants
+		if headerSynced && !(strings.HasPrefix(m.name, "sig") || m.sameHeader) {
+			continue // after the header was synced only mutants with the SAME header hash are of interest: signature lists and bodies
 		}
-		for _, path := range []string{"AddBlock", "Execute+Submit"} {
+		for _, path := range offerPaths {
 			x := &mctx{c: c, rng: rng.Sub(uint64(mi)), prev: prev, older: older, outside: outside, extraTx: extra}
 			mb := clone(B)
 			if m.apply != nil {
@@ -316,10 +373,15 @@ func tryMutants(r *vf.Run, rng *vf.RNG, c *chain.Chain, B *types.Block, root com
 					panic(err)
 				}
 			}
-			if m.wrongRoot && (path != "AddBlock" || len(B.Transactions) == 0) {
-				continue // the state-root argument only exists on the AddBlock path and is not checked for empty blocks
+			if m.wrongRoot && (path == "Execute+Submit" || len(B.Transactions) == 0) {
+				continue // the state-root argument only exists on the AddBlock paths and is not checked for empty blocks
 			}
-			id := map[string]interface{}{"chain": kind, "height": cur + 1, "mutant": m.name, "path": path, "block_hex": vf.HexTrunc(mb.ToArray(), 4096)}
+			// blocks travel as bytes
+			raw := serialize(mb)
+			if m.wire != nil {
+				raw = m.wire(raw, mb)
+			}
+			id := map[string]interface{}{"chain": kind, "height": cur + 1, "mutant": m.name, "path": path, "block_hex": vf.HexTrunc(raw, 4096)}
 			if headerSynced {
 				id["after_header_sync"] = true
 				r.Count("mutant_after_header_sync/" + m.name)
@@ -329,35 +391,67 @@ func tryMutants(r *vf.Run, rng *vf.RNG, c *chain.Chain, B *types.Block, root com
 				r.Count("mutant/" + m.name)
 				r.Eval(fmt.Sprintf("%s/%d/%s/%s", kind, cur+1, m.name, path))
 			}
-			// blocks travel as bytes
+			badTxRoot := m.wire == nil && txRootInconsistent(mb)
+			if m.wire != nil {
+				badTxRoot = true // the wire shapes all carry a transaction root that is not the root of the encoded list
+			}
+			if badTxRoot {
+				r.Count("offered_with_inconsistent_txroot")
+				r.Count("offered_with_inconsistent_txroot/" + path)
+				if len(mb.Transactions) == 0 || m.wire != nil {
+					r.Count("offered_empty_txlist_nonzero_txroot")
+				}
+				id["txroot_inconsistent_with_txlist"] = true
+			}
+			if m.forge {
+				r.Count("forgery_offered/" + path)
+			}
+			rt := root
+			if m.wrongRoot {
+				rt = flip(root, x.rng)
+			}
 			var offered *types.Block
-			raw := serialize(mb)
-			var derr error
-			offered, derr = types.BlockFromRawBytes(raw)
 			var err error
 			stage := ""
-			if derr != nil {
-				err = derr
-				stage = "decode"
-				r.Count("rejected_at_decode")
-			} else if path == "AddBlock" {
-				rt := root
-				if m.wrongRoot {
-					rt = flip(root, x.rng)
-				}
-				err = c.Ledger.AddBlock(offered, nil, rt)
-				stage = "AddBlock"
-			} else {
-				var res = struct{ ok bool }{}
-				er, e1 := c.Ledger.ExecuteBlock(offered)
-				if e1 != nil {
-					err = e1
-					stage = "ExecuteBlock"
+			switch path {
+			case "AddBlock", "Execute+Submit":
+				var derr error
+				offered, derr = types.BlockFromRawBytes(raw)
+				if derr != nil {
+					err = derr
+					stage = "decode"
+					r.Count("rejected_at_decode")
+				} else if path == "AddBlock" {
+					err = c.Ledger.AddBlock(offered, nil, rt)
+					stage = "AddBlock"
 				} else {
-					res.ok = true
-					err = c.Ledger.SubmitBlock(offered, nil, er)
-					stage = "SubmitBlock"
+					er, e1 := c.Ledger.ExecuteBlock(offered)
+					if e1 != nil {
+						err = e1
+						stage = "ExecuteBlock"
+					} else {
+						err = c.Ledger.SubmitBlock(offered, nil, er)
+						stage = "SubmitBlock"
+					}
 				}
+			case "p2p-msg":
+				// the block-sync message of the p2p layer: block bytes, state merkle root, "has cross chain msg" flag;
+				// what the receiving side does with it: decode the message, hand its three parts to AddBlock
+				payload := append(append(append([]byte{}, raw...), rt[:]...), 0)
+				var in mt.Block
+				if derr := in.Deserialization(common.NewZeroCopySource(payload)); derr != nil {
+					err = derr
+					stage = "decode"
+					r.Count("rejected_at_decode")
+					r.Count("rejected_at_p2p_msg_decode")
+				} else {
+					offered = in.Blk
+					err = c.Ledger.AddBlock(in.Blk, in.CCMsg, in.MerkleRoot)
+					stage = "AddBlock"
+				}
+			}
+			if badTxRoot && stage != "decode" {
+				r.Count("inconsistent_txroot_passed_decoder") // informative: then the ledger's own checks are the last line
 			}
 			after := observe(c)
 			changed := before.fp.Diff(after.fp)
@@ -374,11 +468,18 @@ func tryMutants(r *vf.Run, rng *vf.RNG, c *chain.Chain, B *types.Block, root com
 				continue
 			}
 			if err == nil {
-				r.Violation("invalid-block-accepted:"+m.name+":"+path, "no error returned (stage "+stage+"), ledger change: "+changed, id)
+				what := "no error returned (stage " + stage + "), ledger change: " + changed
+				if badTxRoot {
+					what = "a block whose TransactionsRoot is not the merkle root of its own transaction list was accepted: " + what
+				}
+				r.Violation("invalid-block-accepted:"+m.name+":"+path, what, id)
 				return // the chain has moved; stop this height
 			}
 			if stage != "decode" {
 				r.Count("rejected_by_" + path)
+			}
+			if badTxRoot {
+				r.Count("inconsistent_txroot_rejected")
 			}
 			if changed != "" {
 				r.Violation("rejected-block-changed-ledger:"+m.name+":"+path, fmt.Sprintf("error %q returned but %s changed", err.Error(), changed), id)
@@ -404,4 +505,40 @@ func serialize(b *types.Block) []byte {
 	sink := common.NewZeroCopySink(nil)
 	b.Serialization(sink)
 	return sink.Bytes()
+}
+
+// probeUndecodedObject records (it is NOT a verdict) what the ledger does with a forged block OBJECT that never went
+// through a decoder.  The comparison of the transaction root with the transaction list lives in Block.Deserialization
+// only, and every block that reaches a node from outside is decoded, so the verdicts above always decode.
+func probeUndecodedObject(r *vf.Run, dir string) {
+	w := chain.NewWorld(fmt.Sprintf("c39p-%d", vf.Seed()), 5)
+	c, err := chain.NewSolo(dir, w.BK)
+	if err != nil {
+		panic(err)
+	}
+	defer c.Close()
+	b1, _ := c.MakeBlock(w.FundingTxs(), 0)
+	if _, err := c.CommitExec(b1); err != nil {
+		panic(err)
+	}
+	b, _ := c.MakeBlock(nil, 0)
+	b.Header.TransactionsRoot = common.Uint256{0xde, 0xad}
+	b.Header.BlockRoot = c.Ledger.GetBlockRootWithNewTxRoots(b.Header.Height, []common.Uint256{b.Header.TransactionsRoot})
+	if err := c.Seal(b); err != nil {
+		panic(err)
+	}
+	_, derr := types.BlockFromRawBytes(serialize(b))
+	err = c.Ledger.AddBlock(b, nil, common.UINT256_EMPTY)
+	out := "rejected"
+	if err == nil && c.Ledger.GetCurrentBlockHeight() == 2 {
+		out = "accepted"
+	}
+	r.Count("info/undecoded_forged_object_" + out + "_by_AddBlock")
+	r.Extra("undecoded_object_probe", map[string]interface{}{
+		"what":             "empty block object, TransactionsRoot dead00.., block root and signature rebuilt, handed to AddBlock WITHOUT decoding (informative, not a verdict)",
+		"decoder_says":     fmt.Sprint(derr),
+		"AddBlock_says":    fmt.Sprint(err),
+		"ledger_outcome":   out,
+		"height_afterward": c.Ledger.GetCurrentBlockHeight(),
+	})
 }
